@@ -233,7 +233,8 @@ def scale_lift(ctx, n, prop="C06"):
     sp = os.path.join(ctx.work, "scale_small.ndjson")
     op = os.path.join(ctx.work, "scale.ndjson")
     summ = ctx.vh_json(["allot-scale", ctx.seed, n, sp, op])
-    r1 = ctx.tlc_trace("MachineTrace", "MachineTrace_C06.cfg", sp, label="small exact splits of the scaling lift")
+    scfg = "MachineTrace_C03.cfg" if prop == "C03" else "MachineTrace_C06.cfg"
+    r1 = ctx.tlc_trace("MachineTrace", scfg, sp, label="small exact splits of the scaling lift")
     r2 = ctx.tlc_trace("ValueTrace", vcfg, op, label="scaled runs: U x small shares (U up to 10^30)")
     ctx.cov["evaluations"] += 2 * summ["cases"]
     ctx.cov["big_amount_cases"] = summ["cases"]
@@ -247,7 +248,7 @@ def scale_lift(ctx, n, prop="C06"):
         # confirm by regenerating the same corpus in a fresh process
         summ2 = ctx.vh_json(["allot-scale", ctx.seed, n, sp + "2", op + "2"])
         r3 = ctx.tlc_trace("ValueTrace", vcfg, op + "2", label="confirmation")
-        r4 = ctx.tlc_trace("MachineTrace", "MachineTrace_C06.cfg", sp + "2", label="confirmation")
+        r4 = ctx.tlc_trace("MachineTrace", scfg, sp + "2", label="confirmation")
         if [w for w in r3["viols"] + r4["viols"] if w["prop"] == prop]:
             ctx.add_violation(prop + ": %s | factor %s | script: %s | vars %s | small %s | big %s" % (v["what"], x.get("factor"), str(x.get("text", "")).replace("\n", " ")[:300], x.get("rawvars"), x.get("small"), x.get("big")),
                               dict(kind="scale", property=prop, seed=ctx.seed, n=n, case=x))
